@@ -179,6 +179,10 @@ def negative_sierra_templates(out_dir):
                                        "B:\nbranch_align() -> ();\ndrop_nz([1]) -> ();\ndrop_felt([2]) -> ();\nM:\ndrop_felt([2]) -> ();\nreturn();\n\nverif::f@0([0]: felt252) -> ();\n")
     # a multi-branch libfunc whose explicit target is a return statement (no branch_align)
     body["branch_to_return"] = "felt252_is_zero([0]) { fallthrough() B([1]) };\nbranch_align() -> ();\nreturn();\nB:\nreturn();\n\nverif::f@0([0]: felt252) -> ();\n"
+    # the FALLTHROUGH branch of a multi-branch libfunc lands on a return / on an ordinary statement (no branch_align)
+    body["branch_fallthrough_to_return"] = "felt252_is_zero([0]) { fallthrough() B([1]) };\nreturn();\nB:\nbranch_align() -> ();\ndrop_nz([1]) -> ();\nreturn();\n\nverif::f@0([0]: felt252) -> ();\n"
+    body["branch_fallthrough_no_align"] = ("dup_felt([0]) -> ([0], [2]);\nfelt252_is_zero([0]) { fallthrough() B([1]) };\ndrop_felt([2]) -> ();\nreturn();\n"
+                                           "B:\nbranch_align() -> ();\ndrop_nz([1]) -> ();\ndrop_felt([2]) -> ();\nreturn();\n\nverif::f@0([0]: felt252) -> ();\n")
     for k, v in body.items():
         progs[k] = _HDR + v
     # frame state (environment/frame_state.rs): where alloc_local / finalize_locals are allowed.  Not part of the Coq
